@@ -471,15 +471,19 @@ def run(prog: Program, L: Ledger) -> None:
     # one child iteration, exhaustively: number of candidates × outcome of the child
     it_out = {}
     lbody = lp.body
-    for k in (0, 2):
-        for moved in (True, False):
+    # a target may have been pre-selected on the child before the call (None, one that is still a candidate, one that is not)
+    PRE = {"none": None, "candidate": 7, "gone": 9}
+    for k, moved, pre in [(k_, m_, p_) for k_ in (0, 2) for m_ in (True, False) for p_ in PRE]:
+        for _once in (0,):
             events = []
-            env = {f"{mv}(context)": moved, "__trace__": [], f"{mv}.displaced_labels": 5}
+            env = {f"{mv}(context)": moved, "__trace__": [], f"{mv}.displaced_labels": ("child-label",), f"{mv}.to_displace_labels": PRE[pre]}
             for al in aliases:
                 env[f"len({al})"] = k
                 env[f"{al}.size"] = k
                 env[f"{al}.shape[0]"] = k
                 env[f"context.rng.choice({al})"] = 5
+                env[al] = ([5, 7] if k else [])
+            env["__modelled__"] = {al: env[al] for al in aliases}
 
             def flush(_env=env, _events=events):
                 for t in _env["__trace__"]:
@@ -502,11 +506,14 @@ def run(prog: Program, L: Ledger) -> None:
             except PredUnsupported as exc:
                 raise AnalysisError(f"CompositeDisplacementMove.__call__ loop body: {exc}") from exc
             flush()
-            it_out[(k, moved)] = (events, r)
+            it_out[(k, moved, pre)] = (events, r, dict(env))
     ok_choice = ok_reg = True
     why_choice = why_reg = ""
-    for (k, moved), (evs, r) in it_out.items():
-        case = f"{k} candidates, child {'moves' if moved else 'fails'}"
+    rs_fn = cd.methods.get("register_success")
+    rs_par = [a_.arg for a_ in rs_fn.node.args.args][1:2] if rs_fn is not None else []
+    rs_app = [norm(c_.args[0]) for c_ in calls_in(rs_fn.node) if norm(c_.func) == "self.displaced_labels.append" and len(c_.args) == 1] if rs_fn is not None else []
+    for (k, moved, pre), (evs, r, env_end) in it_out.items():
+        case = f"{k} candidates, child {'moves' if moved else 'fails'}, pre-selected target: {pre}"
         regs_ = [e_[1] for e_ in evs if e_[0] == "call" and e_[1].startswith(("self.register_success", "self.register_failure"))]
         draws = [e_ for e_ in evs if e_[0] == "call" and ".choice(" in e_[1]]
         tl = [e_ for e_ in evs if e_[0] == "store" and e_[1] == f"{mv}.to_displace_labels"]
@@ -515,13 +522,30 @@ def run(prog: Program, L: Ledger) -> None:
             if regs_ != ["self.register_failure()"] or draws or tl or childcalls or r in ("return", "break", "raise"):
                 ok_reg, why_reg = False, f"{case}: {[e_[:2] for e_ in evs]}"
             continue
-        if len(draws) != 1 or len(tl) != 1 or tl[0][2] != 5 or len(childcalls) != 1 or evs.index(tl[0]) > childcalls[0]:
-            ok_choice, why_choice = False, f"{case}: draws {[d[1][:50] for d in draws]}, label stores {[(t_[1], t_[2]) for t_ in tl]}, child calls {len(childcalls)}"
+        # the target the child works on when it is called: the last value stored before the call, else the pre-selected one;
+        # it must be one of the filtered candidates (the draw, or a pre-selected label that is verified to be one of them)
+        before = [t_ for t_ in tl if childcalls and evs.index(t_) < childcalls[0]]
+        target = before[-1][2] if before else PRE[pre]
+        if len(draws) != 1 or len(tl) > 1 or len(childcalls) != 1 or len(before) != len(tl) or target not in (5, 7):
+            ok_choice, why_choice = False, f"{case}: draws {[d[1][:50] for d in draws]}, label stores {[(t_[1], t_[2]) for t_ in tl]}, child calls {len(childcalls)}, target at the child call {target!r} (candidates are 5 and 7)"
         if running is not None:
             apps = [e_[1] for e_ in evs if e_[0] == "call" and e_[1].startswith(f"{running[0]}.append(")]
             if apps != ([f"{running[0]}.append({running[1]})"] if moved else []):
                 ok_reg, why_reg = False, f"{case}: the running list of displaced labels receives {apps}"
         want = [f"self.register_success({mv})"] if moved else ["self.register_failure()"]
+        if moved and len(regs_) == 1 and regs_[0].startswith("self.register_success(") and regs_[0] != want[0] and len(rs_par) == 1 and rs_app == rs_par:
+            # register_success(label) records its argument: the argument must be the label the child displaced — the
+            # child's own record, or a value equal to the target the child was called with, in every case
+            arg_txt = regs_[0][len("self.register_success("):-1]
+            if arg_txt == f"{mv}.displaced_labels":
+                continue
+            try:
+                val = ev(ast.parse(arg_txt, mode="eval").body, env_end)
+            except (PredUnsupported, Raises, SyntaxError):
+                val = ("unknown",)
+            if val != target:
+                ok_reg, why_reg = False, f"{case}: the label recorded is `{arg_txt}` = {val!r} while the child displaced {target!r}"
+            continue
         if regs_ != want or r in ("return", "break", "raise"):
             ok_reg, why_reg = False, f"{case}: registrations {regs_}, expected {want}"
     other_draws = [c for c in calls_in(lp) if isinstance(c.func, ast.Attribute) and c.func.attr in ("choice", "integers", "permutation") and not (len(c.args) >= 1 and isinstance(c.args[0], ast.Name) and c.args[0].id in aliases)]
@@ -544,6 +568,8 @@ def run(prog: Program, L: Ledger) -> None:
     regf = cd.methods.get("register_failure")
     oks = regs is not None and any(isinstance(c, ast.Call) and norm(c.func) == "self.displaced_labels.append" and norm(c.args[0]) == f"{regs.params()[1]}.displaced_labels" for c in calls_in(regs.node))
     okf = regf is not None and any(isinstance(c, ast.Call) and norm(c.func) == "self.displaced_labels.append" and norm(c.args[0]) == "None" for c in calls_in(regf.node))
+    if regs is not None and len(rs_par) == 1 and rs_app == rs_par:
+        oks = True  # records its argument; what the call site passes is decided above, case by case
     L.check(oks and okf, "D4", "CompositeDisplacementMove.register_*", cd.where, "register_success/failure do not append the displaced label / None", "", "append")
     ret = [s for s in body if isinstance(s, ast.Return)]
     L.check(len(ret) == 1 and norm(linl.inline(ret[0].value)) in ("self.number_of_moved_particles > 0", "self.number_of_moved_particles >= 1", "bool(self.number_of_moved_particles)", "self.number_of_moved_particles != 0"), "D4", "CompositeDisplacementMove.__call__:result", cc0.where, "result is not `number_of_moved_particles > 0`", "", norm(ret[0].value) if ret else "")
